@@ -261,6 +261,12 @@ def check_schema(c, it, tr, decisions, src, expected_events, label, method="visi
 
     exp = [ev_sig(*e) for e in expected_events if _wanted(e)]
     c.prove(f"{label}/events==instrumented-bindings-in-order", got == exp, note=f"got={got} expected={exp}", only=["C02", "C06", "C11"])
+    # C09 (and C01: object lifetime is an externally visible effect): a temporary the transformer introduces holds a reference to a user
+    # object (the right-hand side); it is deleted as soon as the statement is done, otherwise `del it` in the user's code no longer
+    # drops the last reference (a dropped generator would not be finalised and keep its context installed)
+    stored = {x.id for o in outs for x in ast.walk(o) if isinstance(x, ast.Name) and isinstance(x.ctx, ast.Store) and x.id.startswith("_ptera__")}
+    deleted = {x.id for o in outs for x in ast.walk(o) if isinstance(x, ast.Name) and isinstance(x.ctx, ast.Del)}
+    c.prove(f"{label}/temporaries-are-forgotten-after-the-statement", stored <= deleted, note=f"kept alive: {sorted(stored - deleted)}", only=["C09", "C01"])
     # C16: the marker only flows into the 4th argument of an interact call
     leaks = marker_leaks(outs)
     c.prove(f"{label}/ABSENT-marker-only-inside-interact", not leaks, note=str(leaks), only=["C16"])
@@ -331,7 +337,7 @@ ASSIGN_SCHEMAS = [
 ]
 
 
-@unit("visit_Assign", ["C01", "C02", "C04", "C16"], VISITORS, replay=_replay_native("visit_Assign"))
+@unit("visit_Assign", ["C01", "C02", "C04", "C16", "C09"], VISITORS, replay=_replay_native("visit_Assign"))
 def u_visit_assign(c):
     """Plain, attribute, subscript, chained, tuple, nested-tuple, starred and list-target assignment for every
     instrumentation subset of the bound names."""
@@ -619,7 +625,13 @@ def u_passthrough(c):
     label, src, evs = PASS_SCHEMAS[k]
     for e in evs:
         dec.setdefault((e[0], None), bool(c.choose(2, "instrument")))
-    check_schema(c, it, tr, dec, src, evs, label)
+    outs = check_schema(c, it, tr, dec, src, evs, label)
+    if label == "with-two-targets" and outs is not None and dec.get(("w", None)):
+        # `with A as w, B as (p, q)`: w is bound BEFORE B is entered (the statement is equivalent to nested withs); its event must be
+        # delivered at that moment -- if entering B raises, w was bound all the same
+        text = PE.dump(outs)
+        iw, ie2 = text.find("Constant(value='w')"), text.find("__VE2")
+        c.prove("with-two-targets/first-target-reported-before-the-second-item-is-entered", 0 <= iw < ie2, note=f"positions {iw} {ie2}", only=["C02"])
 
 
 # ---------------------------------------------------------------------------------------------
